@@ -342,16 +342,18 @@ F("SYNC-second-run-reformats-module", SYNCP,
 F("SYNC-method-target-appended-every-run", SYNCP,
   "sync with a method target `C.f` that is never found appends another bare `def f` on every run (follows from "
   "SYNC-method-target-created-at-module-level)",
-  ["Idempotent", "OldOrNew", "FrameKept"], when={"k": "sync", "target": "function", "ctx": "method", "extra": True})
+  ["Idempotent", "OldOrNew", "FrameKept"], when={"k": "sync", "target": "function", "ctx": "method", "extra": True,
+                                                 "pre": ["missing", "empty", "mod-absent"]})
 
 F("SYNC-nested-class-target-created-at-module-level", SYNCP,
   "sync with a nested class target `Outer.ConfigClass` that does not exist yet (file missing / empty / Outer without it / no Outer) "
   "appends a top-level `class ConfigClass` instead of a member of Outer; `Outer.ConfigClass` still does not resolve "
   "(the same defect as SYNC-method-target-created-at-module-level)",
-  ["Agreement"], when={"k": "sync", "target": "class", "ctx": "nested", "pre": ["missing", "empty", "mod-absent"], "extra": True})
+  ["Agreement"], when={"k": "sync", "target": "class", "ctx": ["nested", "deep"], "pre": ["missing", "empty", "mod-absent"], "extra": True})
 F("SYNC-nested-class-target-appended-every-run", SYNCP,
   "sync with a nested class target that is never found appends another top-level class on every run",
-  ["Idempotent", "OldOrNew", "FrameKept"], when={"k": "sync", "target": "class", "ctx": "nested", "extra": True})
+  ["Idempotent", "OldOrNew", "FrameKept"], when={"k": "sync", "target": "class", "ctx": ["nested", "deep"], "extra": True,
+                                                 "pre": ["missing", "empty", "mod-absent"]})
 
 F("SYNC-argparse-target-of-function-truth-cannot-become-truth", SYNCP,
   "an argparse function that sync generated from a function truth with a return entry returns a tuple but documents only "
